@@ -223,7 +223,12 @@ class DQN(RLAlgorithm):
 
             action_mask = torch.ones((batch_size, self.action_dim), device=device)
 
-        return self._get_action(torch_obs, epsilon, action_mask).cpu().numpy()
+        # Inference: normalisation layers must use their running statistics, not those of
+        # the batch of observations that happen to share this call
+        self.actor.eval()
+        action = self._get_action(torch_obs, epsilon, action_mask).cpu().numpy()
+        self.actor.train()
+        return action
 
     def _get_action(
         self, obs: TorchObsType, epsilon: torch.Tensor, action_mask: torch.Tensor
